@@ -2,7 +2,7 @@ import os, vlib
 META = dict(
     engine='cosched',
     technique='stateless model checking: preemption-bounded exhaustive schedule enumeration (CHESS) of the real base, countable and data-copy futures with counting callbacks',
-    level_text='Every schedule with <= b preemptions (quick: b=2 for the six small scripts, b=1 for the others; thorough: b=4 small, b=2 others) of 20 scripts is executed on the real futures: racing setters and blocking/polling getters on a base future (one accepted value, every reader gets it, callback once, in the winner), countable futures with count 1..3 (ready / callback exactly with the count-th set), and data-copy futures with 1-3 requested shapes, synchronous or deferred fulfilment (fulfilment and nested set-up exactly once per requested shape and never for an unrequested one, every reader of a shape gets that shape\'s pointer, clean-up callbacks once per future on release).',
+    level_text='Every schedule with <= b preemptions (quick: b=2 for five small scripts, b=1 for ten 3-thread scripts; thorough: b=4 small, b=2 for the others including six larger scripts - deferred completion with two readers, 4 threads) of 21 scripts is executed on the real futures: racing setters and blocking/polling getters on a base future (one accepted value, every reader gets it, callback once, in the winner), countable futures with count 1..3 (ready / callback exactly with the count-th set), and data-copy futures with 1-3 requested shapes, synchronous or deferred fulfilment (fulfilment and nested set-up exactly once per requested shape and never for an unrequested one, every reader of a shape gets that shape\'s pointer, clean-up callbacks once per future on release).',
     level_note='Sequential consistency at instrumented accesses; 2-4 threads; the nested list object itself is only reached under the root future\'s lock and is not a watched region; the documented non-thread-safe entry points (init, data-copy set) are used as documented (set only from the fulfil callback or by one completing thread after the trigger).',
 )
 RULE = ("cosched: every schedule of each 2-4 thread script over the real parsec_base_future_t / parsec_countable_future_t / parsec_datacopy_future_t "
@@ -15,15 +15,16 @@ def check(ctx):
     exe = ctx.compile('hk-shm', 'future', SRC, engine='cosched')
     def leg(sets, bound, deadline):
         env = dict(os.environ); env['C29_SET'] = sets
-        args = ['--bound', str(bound), '--jobs', str(vlib.NJOBS), '--outdir', vlib.OUT, '--deadline', str(deadline)]
+        args = ['--bound', str(bound), '--jobs', str(min(vlib.NJOBS, 6 if ctx.tier == 'quick' else 12)), '--outdir', vlib.OUT, '--deadline', str(deadline)]
         ctx.run_engine(exe, args, label='future-%s-b%d' % (sets, bound), timeout=deadline + 600, env=env)
     if ctx.tier == 'quick':
         leg('s', 2, 40)
-        leg('ml', 1, 35)
+        leg('q', 1, 35)
     else:
-        leg('s', 4, 240)
-        leg('m', 2, 600)
-        leg('l', 2, 240)
+        leg('s', 4, 200)
+        leg('q', 2, 500)
+        leg('x', 1, 200)
+        leg('x', 2, 250)
     return ctx.finish(RULE, ["sequential consistency at instrumented accesses (no weak-memory effects)",
                              "gcc -fsanitize=thread instrumentation reports every access to the watched objects",
                              "documented usage contract of the non-thread-safe entry points is respected by the scripts"])
